@@ -14,6 +14,8 @@ backing array of `PathItem.Parameters` of path item i — `decodedCap n` of them
                                     would STORE the operation's parameters in the path item's backing array whenever the
                                     decoded slice has spare capacity (3, 5-7, 9-15 … parameters): `appendActs`,
                                     theorems `merged_parameter_loops_*`
+  Validator.Middleware handler      FindRoute + ValidateRequest + ValidateResponse footprints; the Validator and its Options are
+                                    only read (a write to the shared Options would be a `plain` row of the table)
   ValidateRequest / ValidateResponse / VisitJSON
                                     read doc (+ router); per `pattern` keyword reached: cacheUse of the process-wide
                                     pattern cache, keyed by pattern text (the cached matcher is used if there is one,
@@ -33,6 +35,8 @@ import KinModel.ConcSlice
 namespace KinModel.Conc
 
 inductive OpKind | frg | frl | vreq | vresp | visit | gen
+  | mw    -- the handler of (*openapi3filter.Validator).Middleware: FindRoute, ValidateRequest, the wrapped handler, ValidateResponse,
+          -- on ONE Validator whose Options every request shares (`Options: &v.options`)
   deriving DecidableEq, Repr
 
 /-- one operation of a correspondence case, reduced to what determines its footprint -/
@@ -65,11 +69,11 @@ def sliceCell (i j : Nat) : Cell := 12 + 3 * (64 * i + j)
 def itemHdr (n : Nat) : Hdr := ⟨n, decodedCap n⟩
 
 def usesRouter : OpKind → Bool
-  | .frg | .frl | .vreq | .vresp => true
+  | .frg | .frl | .vreq | .vresp | .mw => true
   | _ => false
 
 def validates : OpKind → Bool
-  | .vreq | .vresp | .visit => true
+  | .vreq | .vresp | .visit | .mw => true
   | _ => false
 
 /-- footprint of operation `o` when run by thread `tid` (the thread does not matter any more: both
@@ -78,7 +82,7 @@ def opActs (_tid : Nat) (o : OpM) : List Act :=
   [Act.read docCell] ++
   (if usesRouter o.kind then [Act.read routerCell] else []) ++
   -- ValidateRequest: `for _, parameterRef := range pathItemParameters` (the operation's own parameters: document reads)
-  (if o.kind = .vreq then rangeActs (sliceCell o.item) o.itemParams else []) ++
+  (if o.kind = .vreq ∨ o.kind = .mw then rangeActs (sliceCell o.item) o.itemParams else []) ++
   -- visitJSONString USES the matcher the process-wide cache holds for the pattern TEXT, else compiles with the
   -- call's own regex compiler; `compilePattern` never fills the cache (CompareAndSwap(pattern, nil, cp))
   (if validates o.kind then o.patterns.map (fun p => Act.cacheUse (patCell p) (1 + o.dialect)) else []) ++
